@@ -128,6 +128,7 @@ class Real:
         for name, kind in (("readers", "in"), ("writers", "out")):
             getattr(self.m.disk, name).shutdown()
             setattr(self.m.disk, name, ManualPool(self.jobs, kind))
+        self.exited = False
         self.via_server = via_server
         if via_server:
             self.srv = object.__new__(server.LocalServer)
